@@ -81,6 +81,52 @@ impl VisitExpr for Recorder {
     }
 }
 
+/// A visitor whose output is NOT a monoid: default "0", combine a b = "(a+b)", every leaf "x".
+/// Shows how the results are folded (from the default, left to right), not only which leaves are seen.
+#[derive(Debug)]
+pub struct Shape(String);
+impl Default for Shape {
+    fn default() -> Self {
+        Shape("0".into())
+    }
+}
+impl Combine for Shape {
+    fn combine(self, other: Self) -> Self {
+        Shape(format!("({}+{})", self.0, other.0))
+    }
+}
+pub struct Shaper;
+impl Visit for Shaper {
+    type Output = Shape;
+    type Error = usize;
+}
+impl VisitExpr for Shaper {
+    fn visit_poetic_number_literal_elem(&mut self, _: &PoeticNumberLiteralElem) -> visit::Result<Self> {
+        Ok(Shape("e".into()))
+    }
+    fn visit_binary_operator(&mut self, _: BinaryOperator) -> visit::Result<Self> {
+        Ok(Shape("b".into()))
+    }
+    fn visit_unary_operator(&mut self, _: UnaryOperator) -> visit::Result<Self> {
+        Ok(Shape("u".into()))
+    }
+    fn visit_literal_expression(&mut self, _: &WithRange<LiteralExpression>) -> visit::Result<Self> {
+        Ok(Shape("l".into()))
+    }
+    fn visit_pronoun(&mut self, _: SourceRange) -> visit::Result<Self> {
+        Ok(Shape("p".into()))
+    }
+    fn visit_simple_identifier(&mut self, _: WithRange<&SimpleIdentifier>) -> visit::Result<Self> {
+        Ok(Shape("s".into()))
+    }
+    fn visit_common_identifier(&mut self, _: WithRange<&CommonIdentifier>) -> visit::Result<Self> {
+        Ok(Shape("c".into()))
+    }
+    fn visit_proper_identifier(&mut self, _: WithRange<&ProperIdentifier>) -> visit::Result<Self> {
+        Ok(Shape("n".into()))
+    }
+}
+
 fn fold_err(e: ConstantFoldingError) -> &'static str {
     match e {
         ConstantFoldingError::NoType => "NoType",
@@ -120,6 +166,14 @@ pub fn run_analysis(op: &str, args: &[Sx]) -> Result<String, String> {
             Ok(match res {
                 Ok(log) => format!("ok calls={} {}", calls, log.0.join(" ")),
                 Err(k) => format!("err {} calls={}", k, calls),
+            })
+        }
+        // (ana <id> shape <src>): how the results are combined
+        "shape" => {
+            let mut runner = ExprVisitorRunner::with_inner(Shaper);
+            Ok(match runner.visit_program(&program) {
+                Ok(sh) => format!("ok {}", sh.0),
+                Err(k) => format!("err {}", k),
             })
         }
         // (ana <id> fold <src>): both folders on the expression of every top-level `say`
